@@ -15,9 +15,14 @@ from __future__ import annotations
 import json
 import random
 
+import copy
+import os
+import sys
+
 import common
 import impl  # noqa: F401
 import diag_common as dc
+from props import c15scope as cs
 
 PID = "C15"
 TABLES = ["C15", "C16"]
@@ -168,14 +173,25 @@ def prepare_program(res, project, prog, rng, pidx):
             "outputs": outputs}
 
 
+def taken(rec, ci):
+    """The in-process run of configuration `ci` made while the CLI subprocesses were running (an
+    exception raised there is raised here, where the caller reports it)."""
+    ips = rec.get("ips")
+    if not ips or ci >= len(ips) or ips[ci] is None:
+        return None
+    if isinstance(ips[ci], BaseException):
+        raise ips[ci]
+    return ips[ci]
+
+
 def judge_program(res, rec, cli, mouts):
     project, prog, case_base, evs, total = rec["project"], rec["prog"], rec["case_base"], rec["evs"], rec["total"]
-    for cfg, output, cl, mo in zip(rec["cfgs"], rec["outputs"], cli, mouts):
+    for ci, (cfg, output, cl, mo) in enumerate(zip(rec["cfgs"], rec["outputs"], cli, mouts)):
         res.evaluations += 1
         case = {**case_base, "cfg": cfg, "argv": argv_of(cfg, project, output), "events": evs}
         if evs:
             res.nontrivial.add(common.digest({"p": prog, "c": cfg}))
-        ip = dc.run_inprocess(project, argv_of(cfg, project, "results"))
+        ip = taken(rec, ci) or dc.run_inprocess(project, argv_of(cfg, project, "results"))
         if ip["crash"] is not None or any(l.startswith("Traceback") for l in cl["junk"]):
             res.skipped_outside_fragment += 1
             res.count("skipped:crash")
@@ -254,12 +270,32 @@ def run(tier, seed, build):
     res = common.Result(PID)
     res.rule = ("generated two-file projects (menu of constructs emitting info/warning/error/fatal in target, followed "
                 "import and simplification) x 8 configurations (thresholds 0, total-1, total, total+1; --strict; "
-                "strict from TOML with and without a threshold) with a random -w each; non-trivial = distinct "
-                "(program, configuration) whose dry run emits >= 1 diagnostic")
+                "strict from TOML with and without a threshold) with a random -w each; plus generated projects of up to five "
+                "files (target, followed import, modules star-imported by the target / by the import / by a star-imported "
+                "module) with module-level constructs (root-context diagnostics, walrus-bound lambdas and namedtuples, "
+                "annotated functions) x 5 configurations, replayed as a trace of enter_file blocks and diagnostics with "
+                "their active with/try scopes; non-trivial = distinct (program, configuration) whose dry run emits >= 1 diagnostic")
     rng = random.Random(seed)
-    n_random = 60 if tier == "quick" else 900
+    n_random = 22 if tier == "quick" else 900
+    n_scoped = 12 if tier == "quick" else 300
     progs = fixed_programs() + [dc.gen_program(rng) for _ in range(n_random)]
+    rng2 = random.Random(seed * 7919 + 17)
+    score, srest = cs.fixed_programs(tier, rng2)
+    sprogs = score + srest + [cs.gen_program(rng2) for _ in range(n_scoped)]
+    only = os.environ.get("C15_DEBUG_ONLY")          # debugging aid: "scoped-core" | "scoped" | "flat"
+    if only:
+        progs = progs if only == "flat" else []
+        sprogs = [] if only == "flat" else score if only == "scoped-core" else sprogs
     model = common.Model()
+    coverage, coverage_fixed = {}, {}
+    import time as _time
+    phases, _t = {}, _time.time()
+
+    def lap(name):
+        nonlocal _t
+        phases[name] = round(_time.time() - _t, 1)
+        _t = _time.time()
+
     with dc.scratch_dir("rattr-c15-") as base:
         recs = []
         for i, prog in enumerate(progs):
@@ -272,23 +308,71 @@ def run(tier, seed, build):
                 continue
             if rec is not None:
                 recs.append(rec)
+        lap("prepare-flat")
+        for i, prog in enumerate(sprogs):
+            try:
+                project = cs.ScopedProject(base / f"s{i}", prog)
+                rec = cs.prepare(res, project, prog, rng2, i, sys.modules[__name__])
+            except Exception as exc:
+                res.internal_errors.append({"what": f"harness exception {type(exc).__name__}: {exc}", "program": prog})
+                continue
+            if rec is not None:
+                rec["fixed"] = i < len(score)
+                recs.append(rec)
+        lap("prepare-scoped")
         jobs = [(r["project"], argv_of(c, r["project"], o)) for r in recs for c, o in zip(r["cfgs"], r["outputs"])]
-        cli = dc.run_cli_many(jobs)
-        mouts = model.batch([("diag_run", {"cfg": model_cfg(c), "events": r["evs"]}) for r in recs for c in r["cfgs"]])
+        # the CLI subprocesses run from a pool thread; meanwhile this thread makes the in-process runs
+        # (they patch module globals, so they stay in one thread; subprocesses get cwd / env explicitly)
+        from concurrent.futures import ThreadPoolExecutor
+        with ThreadPoolExecutor(max_workers=1) as bg:
+            fut = bg.submit(dc.run_cli_many, jobs)
+            for r in recs:
+                r["ips"] = []
+                for c in r["cfgs"]:
+                    try:
+                        a = argv_of(c, r["project"], "results")
+                        r["ips"].append(cs.run_inprocess(r["project"], a) if r.get("scoped") else dc.run_inprocess(r["project"], a))
+                    except Exception as exc:
+                        r["ips"].append(exc)
+            lap("in-process (while the CLI runs)")
+            cli = fut.result()
+        lap("cli (remaining)")
+        mouts = model.batch([("diag_scoped", {"cfg": model_cfg(c), "steps": r["steps"]}) if r.get("scoped") else
+                             ("diag_run", {"cfg": model_cfg(c), "events": r["evs"]}) for r in recs for c in r["cfgs"]])
+        lap("model")
         k = 0
         for r in recs:
             n = len(r["cfgs"])
             try:
-                judge_program(res, r, cli[k:k + n], mouts[k:k + n])
+                if r.get("scoped"):
+                    cs.judge(res, r, cli[k:k + n], mouts[k:k + n], coverage, sys.modules[__name__])
+                    if r["fixed"]:
+                        coverage_fixed = copy.deepcopy(coverage)
+                else:
+                    judge_program(res, r, cli[k:k + n], mouts[k:k + n])
             except Exception as exc:
                 res.internal_errors.append({"what": f"harness exception {type(exc).__name__}: {exc}", "program": r["prog"]})
             k += n
-    res.extra["programs_generated"] = len(progs)
+        lap("judge")
+        cs.coverage_report(res, coverage, coverage_fixed)
+    res.extra["phase_seconds"] = phases   # information only, never used for a verdict
+    if only:
+        (common.EVIDENCE / "scratch").mkdir(parents=True, exist_ok=True)
+        (common.EVIDENCE / "scratch" / "C15-debug.json").write_text(json.dumps(
+            {"disagreements": res.disagreements[:40], "violations": res.violations[:40], "internal": res.internal_errors[:20]},
+            indent=1, default=str))
+    res.extra["programs_generated"] = len(progs) + len(sprogs)
     res.assumptions = [
         "[interp] 'documented weight' = README/--help table (+0 info, +1 warning, +5 error); the only weightless error is "
         "'unable to resolve builtin module' (explicit badness=0 at its call site, marked as a known limitation there)",
         "[interp] a diagnostic 'arises' in the stage of main it is raised in (simplification) or, during analysis, in the file "
-        "holding its AST culprit; diagnostics without an AST culprit raised during analysis are not attributed",
+        "holding its AST culprit (told by line-number padding, never by the file name rattr prints or by state.current_file), "
+        "else in the file whose AST is being analysed (compile_root_context / FileAnalyser.analyse on a tree that ast.parse "
+        "produced from that file's text); diagnostics with neither (import resolution in the BFS loop) are not attributed",
+        "[interp] a diagnostic emitted twice (a star-imported module's root context is compiled once for the expansion and "
+        "once when the module is followed as an import) counts twice: the statement is about each *emitted* diagnostic",
+        "[interp] 'prints the selected output' is judged on stdout lines that are not diagnostic lines: the annotation parser "
+        "re-prints captured diagnostic lines with print(), i.e. on stdout (counted in the distribution, not a C15 matter)",
         "the event list of a run that exits early is a prefix of the permissive dry run's list (checked on every run)",
         "strict together with a threshold is only expressible with strict coming from a TOML file (argparse mutex on the CLI)",
     ]
@@ -303,6 +387,8 @@ def replay(path):
     if not prog or not cfg:
         return 0
     model = common.Model()
+    if case.get("layout") == "scoped":
+        return replay_scoped(prog, cfg, model)
     with dc.scratch_dir("rattr-c15-replay-") as base:
         project = dc.Project(base / "p", prog, layout=case.get("layout", "flat"))
         (project.cwd / "strict.toml").write_text("[tool.rattr]\nstrict = true\n")
@@ -315,4 +401,25 @@ def replay(path):
         print("IMPLEMENTATION: exit", cl["exit"], "stats", dc.parse_stats(cl["stdout"]), "stderr levels", [l["level"] for l in cl["lines"]])
         print("EVENTS:", evs)
         print("MODEL/SPEC:", json.dumps(mo))
+    return 0
+
+
+def replay_scoped(prog, cfg, model):
+    with dc.scratch_dir("rattr-c15-replay-") as base:
+        project = cs.ScopedProject(base / "p", prog)
+        print("LAYOUT:", prog.get("layout", "flat"), "- rattr is started in the project directory on", project.target_arg)
+        dry = cs.run_inprocess(project, argv_of(dict(strict=False, threshold=0, warn="all"), project, "results"))
+        steps = cs.model_steps(dry)
+        cl = dc.run_cli(project, argv_of(cfg, project, "stats"))
+        cr = dc.run_cli(project, argv_of(cfg, project, "results"))
+        mo = model.batch([("diag_scoped", {"cfg": model_cfg(cfg), "steps": steps})])[0]
+        for name, src in project.sources.items():
+            print(f"{name.upper()}.py (starts at line {cs.FID[name] * cs.PAD + 1}; padding stripped):\n" + src.lstrip("\n"))
+        print("IMPLEMENTATION: exit", cl["exit"], "stats", dc.parse_stats(cl["stdout"]),
+              "stderr", [f"{l['level']}: {l['file']}:{l['line']}" for l in cl["lines"]],
+              "| -o results: exit", cr["exit"], "selected output printed:", cs.selected_output(cr["stdout"]))
+        print("TRACE (src = file the construct is in, by line padding / the AST being analysed):")
+        for s in steps:
+            print("   ", s)
+        print("MODEL (DiagScope.run) / CONTRACT (Spec on the places the constructs are in):", json.dumps(mo))
     return 0
